@@ -294,6 +294,9 @@ def tensor_method(it, tv, name, args, kwargs, node):
             raise Unsupported("%s with unknown axis" % name, node, it.site(node))
         if axes == "all" and rank == 1:
             axes = (-1,)  # reducing a vector over all axes is reducing its only axis (one normal form)
+        if shape is not None:
+            red = list(shape) if axes == "all" else [shape[a_] for a_ in axes if isinstance(a_, int) and -len(shape) <= a_ < len(shape)]
+            it.reductions.append((it.site(node), name, tuple(str(d) for d in red), tuple(fr.func.qualname for fr in it.frames if fr.func is not None)))
         try:
             new_shape = reduce_shape(shape, axes)
         except ShapeMismatch as e:
